@@ -23,8 +23,8 @@ import (
 )
 
 var specC07 = report.Spec{Property: "C07", Check: "C07",
-	Rule: "determinism: arbitrary polygons (as C05), valid polygons with 0-3 holes (as C01) and, 1 case in 150 (thorough: 400), a valid star shaped polygon of 520-2600 (thorough: 4000) vertices several hundred pixels wide x grids x 1-4 ids given in random order x flags. Oracle (metamorphic): (a) three in-process repetitions (GOMAXPROCS as started, 1 and 8) return deeply equal maps, what a call returned does not change while another (shifted) polygon is snapped afterwards, and a digest of the output of up to 3000 multi-level/multi-ring cases per run is recomputed by a second process (Go randomises map iteration per range statement and per process) and must be equal; " +
-		"(b) valid polygons: for every non-empty subset of rings given in the opposite direction the output is deeply equal (rings without orientation - one or two vertices or exactly zero area - may come back in either direction); (c) valid polygons: toggling ReverseWindingOrder yields the same tile matrices, polygons and rings in the same positions, each ring with >= 3 vertices being the reverse (as a cyclic sequence) of its counterpart, 1-2 vertex rings equal as sets; " +
+	Rule: "determinism: arbitrary polygons (as C05), valid polygons with 0-3 holes (as C01) and, 1 case in 150 (thorough: 400), a valid star shaped polygon of 520-2600 (thorough: 4000) vertices several hundred pixels wide, 1 case in 500 (thorough 250) a 'sieve' (two lobes, up to 700 / thorough 2400 holes) x grids x 1-4 ids given in random order x flags. Oracle (metamorphic): (a) three in-process repetitions (GOMAXPROCS as started, 1 and 8) return deeply equal maps, what a call returned does not change while another (shifted) polygon is snapped afterwards, and a digest of the output of up to 3000 multi-level/multi-ring cases per run is recomputed by a second process (Go randomises map iteration per range statement and per process) and must be equal; " +
+		"(b) valid polygons: for every non-empty subset of rings (more than 6 rings: all, every second, every third, the shell only) given in the opposite direction the output is deeply equal (rings without orientation - one or two vertices or exactly zero area - may come back in either direction); (c) valid polygons: toggling ReverseWindingOrder yields the same tile matrices, polygons and rings in the same positions, each ring with >= 3 vertices being the reverse (as a cyclic sequence) of its counterpart, 1-2 vertex rings equal as sets; " +
 		"(d) the same polygon with all rings laid out as consecutive windows of one coordinate buffer (spare capacity of each ring reaching into the next) returns deeply equal geometry and leaves the buffer, including sentinel slots behind the last ring, untouched; " +
 		"(e) 1 case in 8: 24 repetitions spread over 6 goroutines running at the same time (valid polygons: alternating with the all-rings-reversed writing) return the geometry of the call that ran alone. " +
 		"Non-trivial: >= 2 ids, or >= 2 rings, or the result has more polygons/rings than the input (a split). Distinct by case content.",
@@ -52,6 +52,19 @@ func bigStarCase(t *rapid.T) SnapCase {
 func genC07(t *rapid.T) C07Case {
 	if rapid.IntRange(0, report.Scale(150, 400)).Draw(t, "big") == 37 { // (rapid favours small values: pick one from the middle)
 		return C07Case{SnapCase: bigStarCase(t), Valid: true}
+	}
+	if rapid.IntRange(0, report.Scale(500, 250)).Draw(t, "sieve") == 113 {
+		// hundreds (thorough: up to 2400) of holes in a shell that splits in two: what is done per ring in a loop, or handed to workers from some count on
+		sc := SnapCase{Grid: gen.RD, Q: 4, Shape: "sieve"}
+		g := sc.Grid.MustBuild()
+		sc.IDs = []int{rapid.IntRange(3, 14).Draw(t, "sieveID")}
+		sc.Flags = gen.DrawFlags(t)
+		sc.Flags.Ignore = false
+		rings := gen.Sieve(t, 4, report.Scale(700, 2400))
+		if poly, anchor, ok := placeShape(t, g, sc.IDs, rings, 4); ok {
+			sc.Poly, sc.Anchor = poly, anchor
+		}
+		return C07Case{SnapCase: sc, Valid: true}
 	}
 	var c C07Case
 	if rapid.Bool().Draw(t, "validPolygon") {
@@ -313,10 +326,22 @@ func oracleC07(c C07Case) (o report.Outcome) {
 	}
 	// (b) every non-empty subset of rings reversed
 	nr := len(c.Poly)
-	for mask := 1; mask < 1<<nr; mask++ {
+	var subsets []func(i int) bool
+	var names []string
+	if nr <= 6 {
+		for mask := 1; mask < 1<<nr; mask++ {
+			m := mask
+			subsets = append(subsets, func(i int) bool { return m&(1<<i) != 0 })
+			names = append(names, fmt.Sprintf("%b", m))
+		}
+	} else { // hundreds of rings (sieve): all of them, every second one, every third one, only the shell
+		subsets = []func(i int) bool{func(int) bool { return true }, func(i int) bool { return i%2 == 1 }, func(i int) bool { return i%3 == 0 }, func(i int) bool { return i == 0 }}
+		names = []string{"all", "every second", "every third", "shell only"}
+	}
+	for k, rev := range subsets {
 		poly := make([][][2]float64, nr)
 		for i, r := range c.Poly {
-			if mask&(1<<i) != 0 {
+			if rev(i) {
 				poly[i] = kernel.Reversed(r)
 			} else {
 				poly[i] = r
@@ -324,7 +349,7 @@ func oracleC07(c C07Case) (o report.Outcome) {
 		}
 		res := snapWith(c.SnapCase, poly, c.IDs, c.config())
 		if res.Panic != nil || !sameGeometry(a, first.Out, res.Out) {
-			o.Failf([]string{"ring-direction"}, "with rings %b given in the opposite direction the result differs: original %v, reversed input %v (panic %v)", mask, first.Out, res.Out, res.Panic)
+			o.Failf([]string{"ring-direction"}, "with rings %s given in the opposite direction the result differs: original %.1500s, reversed input %.1500s (panic %v)", names[k], fmt.Sprint(first.Out), fmt.Sprint(res.Out), res.Panic)
 			return o
 		}
 	}
